@@ -217,6 +217,12 @@ where
         return Err(Error::InvalidInstances);
     }
 
+    // Commitments are identified by their address when the opening queries are grouped: give
+    // every proof its own copy, so that two proofs may share one slice of committed instances.
+    #[cfg(feature = "committed-instances")]
+    let committed_instances: Vec<Vec<CS::Commitment>> =
+        committed_instances.iter().map(|commitments| commitments.to_vec()).collect();
+
     // An instance column must fit in the usable rows (see `parse_trace`).
     let usable_rows = (vk.n() as usize).saturating_sub(vk.cs.blinding_factors() + 1);
     if instances.iter().any(|instances| instances.iter().any(|column| column.len() > usable_rows)) {
